@@ -480,11 +480,24 @@ def check_restrict(case, rec):
     for n in list(want_names) + list(cmap or {}):
         if n not in names:
             raise RuntimeError(f"harness: {n!r} is not a column of the file ({names})")
+    kw = restrict_kw(reader, sel, cmap)
     try:
-        out = call_reader(reader, f, restrict_kw(reader, sel, cmap))
+        out = call_reader(reader, f, kw)
     except Exception as e:
         rec.violation(reader, "raised", case, f"{type(e).__name__}: {e}; read-all-then-select gives columns {want_names}")
         return
+    if sel is not None or cmap:
+        # the very same argument objects once more: a caller may keep its list / dict and read again with it
+        try:
+            again = call_reader(reader, f, kw)
+            k1 = V.frame_key(out) if fam == "df" else repr(lod_items(out))
+            k2 = V.frame_key(again) if fam == "df" else repr(lod_items(again))
+        except Exception as e:
+            rec.violation(reader, "second-read-raised", case, f"reading again with the same argument objects raised {type(e).__name__}: {e}")
+            return
+        if k1 != k2:
+            rec.violation(reader, "second-read-differs", case, f"reading again with the same argument objects ({kw!r} now) gives {k2}, the first read gave {k1}")
+            return
     try:
         if type(out).__name__ != info["type"]:
             rec.violation(reader, "type", case, f"restricted read returned {type(out).__name__}, unrestricted {info['type']}")
